@@ -63,6 +63,15 @@ func (s *vField) AnalyzedTokenFrequencies() index.TokenFrequencies { return s.fr
 func (s *vField) NumPlainTextBytes() uint64                   { return 0 }
 func (s *vField) Compose(field string, length int, freq index.TokenFrequencies) {}
 
+// vShapeField is a geo-shape field: its encoded shape is an extra doc-value term of the document.
+type vShapeField struct {
+	*vField
+	shape []byte
+}
+
+func (s *vShapeField) GeoShape() (index.GeoJSON, error) { return nil, nil }
+func (s *vShapeField) EncodedShape() []byte             { return s.shape }
+
 // vSynField defines synonyms: term -> synonyms, visited in the given order.
 type vSynField struct {
 	name  string
